@@ -31,11 +31,15 @@ void dump() {
   if (!g_pipe || !g_pipe->impl_) return; auto *i = g_pipe->impl_;
   sched_note("DUMP pipe: stop=%d inited=%d curr=%p free=%zu full=%zu buff_num=%zu", (int)i->stop_signal_, (int)i->inited_, (void *)i->curr_buffer_, i->free_buffers_.size(), i->full_buffers_.size(), i->buff_num_);
 }
+// patterns >= 10: the same AsyncPipe object is used for two sessions (initialize, appends, cleanup, twice - what log::AsyncSink does on
+// disable/enable); the first session is one 1-byte append, the second is pattern pat-10
 void scenario(int bs, int mn, int mx, int pat) {
-  Pattern P = pattern(pat, bs);
+  std::vector<Pattern> sessions; if (pat >= 10) { sessions.push_back(Pattern{{{"S"}}}); pat -= 10; } sessions.push_back(pattern(pat, bs));
   std::string out; int in_cb = 0; bool overlap = false; int cb_thread = -1; bool cb_thread_varies = false; size_t max_block = 0;
   AsyncPipe pipe; g_pipe = &pipe; sched_on_deadlock(dump);
   AsyncPipe::Config cfg; cfg.buff_size = bs; cfg.buff_min_num = mn; cfg.buff_max_num = mx; cfg.interval = 1000;
+  for (size_t si = 0; si < sessions.size(); si++) { Pattern &P = sessions[si]; out.clear(); g_pipe = &pipe;
+  // cleanup() drops the callback, so it is set before every initialize() (as log::AsyncSink does)
   pipe.setCallback([&](const void *p, size_t n) {
     if (in_cb++) overlap = true;
     if (cb_thread >= 0 && cb_thread != sched_self()) cb_thread_varies = true; cb_thread = sched_self();
@@ -61,11 +65,12 @@ void scenario(int bs, int mn, int mx, int pat) {
       if (out.compare(pos, s.size(), s) == 0) { pos += s.size(); next[p]++; ok = true; break; } }
   }
   bool all = true; for (size_t p = 0; p < P.prod.size(); p++) if (next[p] != P.prod[p].size()) all = false;
-  sched_note("O out=%s", out.c_str());
+  sched_note("O%zu out=%s", si, out.c_str());
   if (!ok) sched_fail("output-not-an-interleaving-of-contiguous-appends out=%s", out.c_str());
   if (!all) sched_fail("data-lost-at-cleanup-return out=%s", out.c_str());
   if (overlap) sched_fail("sink-callbacks-overlap");
   if (max_block > (size_t)bs) sched_fail("block-larger-than-buffer");
+  }
 }
 }  // namespace
 
